@@ -205,6 +205,46 @@ func gateSetID(w *World, r *Report) {
 	r.floor("GATE", "result-map stores in readFile", n, 4)
 }
 
+// gateRecoverySetComplete: every file id of the main packet needs its description and checksum packets - a missing one is an error, never skipped.
+func gateRecoverySetComplete(w *World, r *Report) {
+	fn := w.Fn("par2.makeDecoderInputFileInfos")
+	if fn == nil {
+		r.unk("GATE", "G8:recovery-set-complete", "-", "par2.makeDecoderInputFileInfos not found")
+		return
+	}
+	n := 0
+	for _, b := range fn.Blocks {
+		for _, in := range b.Instrs {
+			lk, ok := in.(*ssa.Lookup)
+			if !ok || !lk.CommaOk {
+				continue
+			}
+			n++
+			key := fmt.Sprintf("G8:recovery-set-complete:lookup#%d", n-1)
+			okEdge := false
+			for _, ref := range referrersOf(lk) {
+				ex, isEx := ref.(*ssa.Extract)
+				if !isEx || ex.Index != 1 {
+					continue
+				}
+				for _, r2 := range referrersOf(ex) {
+					if iff, isIf := r2.(*ssa.If); isIf {
+						if blockReturnsError(iff.Block().Succs[1]) {
+							okEdge = true
+						}
+					}
+				}
+			}
+			if okEdge {
+				r.ok("GATE", key, w.ipos(lk), "a file id of the main packet without its packet is an error")
+			} else {
+				r.bad("GATE", key, w.ipos(lk), "a file listed in the main packet whose description or checksum packet is missing is not rejected: the decoder would silently verify a subset of the set and call it clean")
+			}
+		}
+	}
+	r.floor("GATE", "packet lookups in makeDecoderInputFileInfos", n, 2)
+}
+
 func gateExpectedSetID(w *World, r *Report) {
 	fn := w.Fn("(*par2.Decoder).LoadParityData")
 	if fn == nil {
@@ -280,7 +320,7 @@ func gatePar1(w *World, r *Report, probe bool) {
 							_ = vc
 						}
 						for _, vc := range callsIn(fn, "(*par1.Decoder).volumePath") {
-							if sameImage(stripAllConv(pr[1]), stripAllConv(vc.Common().Args[1])) || sameNumber(pr[1], vc.Common().Args[1]) {
+							if sameImage(stripAllConv(pr[1]), stripAllConv(vc.Common().Args[1])) || sameNumber(pr[1], vc.Common().Args[1]) || sameLinear(pr[1], vc.Common().Args[1]) {
 								numOK = true
 							}
 						}
@@ -539,6 +579,7 @@ func ruleGATE(w *World, r *Report, o gateOpts) {
 		gatePacketHash(w, r)
 		gateSetID(w, r)
 		gateExpectedSetID(w, r)
+		gateRecoverySetComplete(w, r)
 		gateSlices(w, r)
 	}
 	if o.par1 {
@@ -607,4 +648,77 @@ func freeVarOf(inner, outer ssa.Value) bool {
 		}
 	}
 	return false
+}
+
+// linForm reduces v to root + constant, looking through conversions, +/- constants,
+// loads of variables assigned exactly once, and captured variables (free variable -> the cell bound to it).
+func linForm(v ssa.Value, depth int) (ssa.Value, int64) {
+	off := int64(0)
+	for i := 0; i < 12 && depth < 6; i++ {
+		v = stripAllConv(v)
+		switch x := v.(type) {
+		case *ssa.BinOp:
+			if c, ok := constInt(x.Y); ok && (x.Op == token.ADD || x.Op == token.SUB) {
+				if x.Op == token.ADD {
+					off += c
+				} else {
+					off -= c
+				}
+				v = x.X
+				continue
+			}
+			return v, off
+		case *ssa.UnOp:
+			if x.Op != token.MUL {
+				return v, off
+			}
+			cell := x.X
+			if fv, ok := cell.(*ssa.FreeVar); ok {
+				if b := bindingOf(fv); b != nil {
+					cell = b
+				}
+			}
+			var stores []ssa.Value
+			for _, ref := range referrersOf(cell) {
+				if st, ok := ref.(*ssa.Store); ok && st.Addr == cell {
+					stores = append(stores, st.Val)
+				}
+			}
+			if len(stores) == 1 {
+				r, o := linForm(stores[0], depth+1)
+				return r, off + o
+			}
+			return cell, off
+		default:
+			return v, off
+		}
+	}
+	return v, off
+}
+
+func bindingOf(fv *ssa.FreeVar) ssa.Value {
+	lit := fv.Parent()
+	idx := -1
+	for i, f := range lit.FreeVars {
+		if f == fv {
+			idx = i
+		}
+	}
+	if idx < 0 || lit.Parent() == nil {
+		return nil
+	}
+	for _, b := range lit.Parent().Blocks {
+		for _, in := range b.Instrs {
+			if mc, ok := in.(*ssa.MakeClosure); ok && mc.Fn == ssa.Value(lit) && idx < len(mc.Bindings) {
+				return mc.Bindings[idx]
+			}
+		}
+	}
+	return nil
+}
+
+func sameLinear(a, b ssa.Value) bool {
+	ra, oa := linForm(a, 0)
+	rb, ob := linForm(b, 0)
+	return ra == rb && oa == ob
 }
